@@ -33,11 +33,14 @@ Finding of this check on the pinned tree, since repaired in /repo (c2100c2; `fix
 TV srv  `tsig record server`: real dns.Servers on in-memory TCP listeners, one per configuration (TsigSecret with the key /
         EMPTY / without the request's key; TsigProvider; provider over a contradicting table; no TSIG configuration at all =
         recorded, not judged) and an in-memory datagram socket (TsigProvider); requests under two keys; 2-5 transactions back to back on every TCP connection, datagrams one by one;
-        requests signed (5 algorithms) / signed with a wrong secret / unsigned; handlers answering with one message, with
+        requests signed (5 algorithms) / signed with a wrong secret / unsigned / right MAC but time 3000 s outside the
+        window (BADTIME) / MAC field cut to half (BADTRUNC); the handler signs its TSIG error reply through WriteMsg; handlers answering with one message, with
         2-4 messages (w.TsigTimersOnly(true) after each) or with Transfer.Out -> Trace_Tsig restarts the session at every
         request -> `tsig judge`: TsigStatus seen by the handler = the specification's verdict on the request; every response's
         MAC = HMAC over the specification's digest input (first response of every transaction: that request's MAC + full
-        variables; later ones: previous MAC + timers only).
+        variables; later ones: previous MAC + timers only).  Judged: answers to verified requests and the error responses
+        RFC 8945 5.3.2 wants signed (BADTIME, BADTRUNC, key known): MAC over the request MAC as received + reply + variables
+        with error / other data.  BADSIG / BADKEY replies (TSIG without MAC) are recorded only.
 
 Mutants (checks/mutants/C11, each must give exit 1):
   digest-omits-error-otherlen   GEN (generate:mac-is-not-hmac-of-rfc-digest), TV (base event: accepts-invalid:mac)
@@ -50,6 +53,7 @@ Mutants (checks/mutants/C11, each must give exit 1):
   tsig-ttl-not-digested         TV (bit events on the 32 TTL bits, field:ttl-1), CHAINS (alter_ttl on the first envelope)
   tsig-class-not-digested       (reverts fix c2100c2) TV (16 class bits, field:class-in), CHAINS (alter_class)
   server-empty-table-no-provider (seeded change C11-8) TV srv (tsig/verify:accepts-invalid:unknown-key:server, "empty table" server)
+  server-error-reply-without-reqmac (seeded change C11-11) TV srv (tsig/verify:accepts-invalid:mac:server-out on BADTIME / BADTRUNC replies)
   server-timersonly-not-reset   (seeded change C11-6 = C15-3) TV srv (tsig/verify:accepts-invalid:mac:server-out on the first
                                 response of a transaction that follows a multi-message answer on the same TCP connection)
 """
